@@ -325,11 +325,14 @@ def run(chk, replay=None):
     # ---- shared / mutable arguments --------------------------------------------------------------
     ec = mod("pyscsi.pyscsi.scsi_enum_command")
     from .c17 import _cscd, _seg
-    for std, nm in ((4, "ExtendedCopy4"), (5, "ExtendedCopy5")):
+    # (descriptor type codes also by the names of the library's tables: the library resolves them and may write
+    # what it resolved into the caller's dictionary, which must not change the next command)
+    for std, nm, segcode in [(a_, b_, c_) for a_, b_ in ((4, "ExtendedCopy4"), (5, "ExtendedCopy5"))
+                             for c_ in (0x02, "block -> stream", "Copy from stream device to block device", 0x0D)]:
         if nm not in refs:
             continue
         K = cmds.klass(nm)
-        tl, sl, inline = [_cscd(std), _cscd(std)], [_seg(std)], bytearray(b"\x01\x02\x03")
+        tl, sl, inline = [_cscd(std), _cscd(std)], [_seg(std, segcode), _seg(std)], bytearray(b"\x01\x02\x03")
         try:
             kw = dict(segment_descriptor_list=sl, inline_data=inline)
             kw["target_descriptor_list" if std == 4 else "cscd_descriptor_list"] = tl
@@ -342,10 +345,11 @@ def run(chk, replay=None):
                 and bytes(c1.cdb) == bytes(c2.cdb)
         except Exception as ex:
             ok = "raised %r" % ex
-        ev.case(("shared", nm))
+        ev.case(("shared", nm, str(segcode)))
         if ok is not True:
             chk.violation({"clause": "SharedArguments", "cls": nm, "other": "", "field": "",
-                           "detail": {"result": str(ok)}, "what": "same list/dict objects passed to two constructions"})
+                           "detail": {"result": str(ok), "segment type given as": str(segcode)},
+                           "what": "same list/dict objects passed to two constructions"}, dedup=("SharedArguments", nm))
     if "PersistentReserveOut" in refs:
         K = cmds.klass("PersistentReserveOut")
         op = ec.spc.PERSISTENT_RESERVE_OUT
